@@ -218,6 +218,21 @@ class V:
 
 
 ALIASES = {}
+RECORDS = {}     # record type name -> TRec (registered by the contract module in use)
+
+
+def register_record(name, fields, aliases=None):
+    """fields: ordered dict field -> type string; two passes so records may mention each other"""
+    RECORDS[name] = TRec(name, {})
+    RECORDS[name]._pending = (fields, aliases)
+
+
+def finish_records():
+    for name, r in RECORDS.items():
+        if getattr(r, '_pending', None):
+            fields, aliases = r._pending
+            r.fields = {f: parse_type(t, aliases) for f, t in fields.items()}
+            r._pending = None
 
 
 def parse_type(s, aliases=None):
@@ -237,6 +252,8 @@ def parse_type(s, aliases=None):
             prim = {'int': INT, 'real': REAL, 'float': REAL, 'bool': BOOL, 'str': STR, 'None': NONE}
             if nm in prim:
                 return prim[nm]
+            if nm in RECORDS:
+                return RECORDS[nm]
             if nm[:1].isupper():
                 return TAbs(nm)   # any other capitalised name: opaque object type
             raise ValueError('unknown type ' + nm)
